@@ -8,8 +8,11 @@ CLAUSE_PROP = {"L": "C10", "A": "C11", "T": "C12"}
 CFG = "SPECIFICATION TSpec\nCHECK_DEADLOCK FALSE\n"
 
 
+SPECIAL = {"A_sealed": ("C03",), "T_srvdrops": ("C12", "C10"), "T_srvdrop": ("C12", "C10")}
+
+
 def props_of(clause):
-    return CLAUSE_PROP.get(clause.split("_")[0], "?")
+    return SPECIAL.get(clause) or (CLAUSE_PROP.get(clause.split("_")[0], "?"),)
 
 
 def run_random(args):
@@ -112,7 +115,7 @@ def judge_and_report(ctx, mine, traces, names):
     other = 0
     for x in rej:
         clauses = sorted(x["failing"]) or ["(none)"]
-        owners = {props_of(c) for c in clauses}
+        owners = {p_ for c in clauses for p_ in props_of(c)}
         if mine in owners or "?" in owners:
             ev = x["ev"] if isinstance(x["ev"], dict) else {}
             tr = traces[x["tid"] - 1]
@@ -123,5 +126,5 @@ def judge_and_report(ctx, mine, traces, names):
         else:
             other += 1
     if other:
-        ctx.note("%d trace(s) stopped early at a clause of another property (%s)" % (other, sorted({props_of(c) for x in rej for c in x["failing"]} - {mine})))
+        ctx.note("%d trace(s) stopped early at a clause of another property (%s)" % (other, sorted({p_ for x in rej for c in x["failing"] for p_ in props_of(c)} - {mine})))
     return traces, rej
